@@ -348,6 +348,52 @@ pub fn families() -> Vec<Box<dyn Family>> {
                 }
             },
         ),
+
+        family(
+            "deep_nested_anchors",
+            "STACK DEPTH: Patience on inputs whose unique items nest linearly (c1 c2 c1 c3 c2 c4 c3 ... on both sides behind one differing first item, 3000..12000 levels), Myers on two unrelated sequences of 1500..2500 items and Myers / Patience on 20000..50000 separate small hunks; run with the stack of an ordinary thread in the small-stack stage (an unoptimised build): the call must return a valid script and not exhaust the stack",
+            false,
+            1,
+            |cfg| if cfg.tiny { 1 } else { cfg.tier.pick(9, 27) },
+            |idx, cfg, out| {
+                let mut rng = Rng::for_case(cfg.seed, "c01.deep", idx);
+                let (a, b, alg): (Vec<u32>, Vec<u32>, Algorithm) = match idx % 3 {
+                    0 => {
+                        let levels = if cfg.tiny { 5 } else { rng.range(3000, 12_000) } as u32;
+                        let mut pat: Vec<u32> = vec![1];
+                        for k in 2..=levels {
+                            pat.push(k);
+                            pat.push(k - 1);
+                        }
+                        let mut a = vec![1_000_000u32];
+                        a.extend_from_slice(&pat);
+                        let mut b = vec![2_000_000u32];
+                        b.extend_from_slice(&pat);
+                        if rng.chance(1, 2) {
+                            a.push(3_000_000);
+                        }
+                        (a, b, Algorithm::Patience)
+                    }
+                    1 => {
+                        let (n, m) = if cfg.tiny { (5, 6) } else { (rng.range(1500, 2500), rng.range(1500, 2500)) };
+                        let (a, b) = gen::landmark_pair(&mut rng, n, m, 3, 0);
+                        (a, b, if rng.chance(1, 2) { Algorithm::Myers } else { Algorithm::Patience })
+                    }
+                    _ => {
+                        let hunks = if cfg.tiny { 5 } else { rng.range(20_000, 50_000) };
+                        let (a, b, _) = gen::many_hunks_pair(hunks);
+                        (a, b, if rng.chance(1, 2) { Algorithm::Myers } else { Algorithm::Patience })
+                    }
+                };
+                out.sample(|| format!("alg={} N={} M={} (shape {})", alg_name(alg), a.len(), b.len(), idx % 3));
+                out.nontrivial(&(alg_name(alg), a.len(), b.len(), idx));
+                out.count("deep_cases");
+                out.eval();
+                let eq = |o: usize, n: usize| a[o] == b[n];
+                let r = traced(Entry::Dispatch, alg, &a[..], 0..a.len(), &b[..], 0..b.len(), &eq, None, false);
+                report_trace(out, "deep input", &|| format!("alg={} N={} M={} old={} new={}", alg_name(alg), a.len(), b.len(), fmt_seq(&a), fmt_seq(&b)), &r);
+            },
+        ),
     ]
 }
 
